@@ -12,7 +12,7 @@ import (
 // check in the same process and re-filed under "<P>.shared/<rule>"; an obligation that is an open known finding
 // of the owning property is a known finding here too.
 var Includes = map[string][]string{
-	"C01": {"C22.float-order", "C22.int-partition", "C22.short-header", "C26.shift-offset"},
+	"C01": {"C16.reset", "C22.float-order", "C22.int-partition", "C22.short-header", "C26.shift-offset"},
 	"C02": {"C23.", "C24.", "C25."},
 	"C03": {"C01.codes", "C01.widths", "C01.array-tables", "C01.chunk-header", "C01.time-table", "C02.", "C22.float-order", "C23.", "C24.", "C25.", "C11.stringlike"},
 	"C04": {"C01.codes", "C01.widths", "C01.array-tables", "C01.chunk-header", "C01.time-table", "C02.", "C05.", "C06.", "C19.", "C20.tracker", "C20.check-before-descend", "C21.", "C22.float-order", "C23.", "C24.", "C25.", "C26.shift-offset", "C26.total", "C26.consumers"},
@@ -31,6 +31,8 @@ var Includes = map[string][]string{
 	"C14": {"C10.dispatch"},
 	"C09": {"C06.retained-bytes", "C16.reset"},
 	"C26": {"C05.array-index"},
+	"C28": {"C14.byte-accounting"},
+	"C29": {"C28.raw-reader"},
 }
 
 var sharing = false
